@@ -189,6 +189,21 @@ class C03(StructBase):
                         exists = True
             if exists and (post["nL"] != nL or post["links"] != pre["links"] or post["ends"] != pre["ends"]):
                 return "dontdup created / changed something although a joining link existed"
+            # the return value is that of the reference model: the first link of a.links joining a and b
+            first = None
+            wellformed = True
+            for lid_ in pre["links"][ia]:
+                j = next(k for k, l in enumerate(real.L) if id(l) == lid_)
+                e = pre["ends"][j]
+                if len(e) < 2 or not isinstance(real.L[j], TwoEndedLink):
+                    wellformed = False
+                    break
+                oth = e[1] if e[0] == id(a) else (e[0] if e[1] == id(a) else None)
+                if oth == id(b):
+                    first = j
+                    break
+            if wellformed and first is not None and out != "ok L%d" % first:
+                return "%s returned %s; the first link of %s.links joining the two is L%d" % (line, out, t[1], first)
         if op not in ("vertex", "universe", "uadd", "urem", "vadd", "vrem"):
             if post["unis"][:nV] != pre["unis"] or post["members"][:nV] != pre["members"]:
                 return "%s changed universe membership" % line
